@@ -498,7 +498,10 @@ pub fn run(ctx: &Ctx, col: &Collector) -> Meta {
     for k in KINDS {
         // toggling a flavour flag alone changes the sizes that follow: such forgeries are
         // expected to die at deserialization
-        if *k == "flip-flavour-flag-only" {
+        // the shifts / re-readings only deserialize when the shifted bytes happen to form a
+        // canonical scalar of the freshly drawn secrets, and depend on the (hash-ordered) position
+        // of the rights: their frequency is not a property of the generator
+        if *k == "flip-flavour-flag-only" || k.starts_with("shift-bytes") || *k == "hybrid-to-classic-dk-becomes-right-name" {
             continue;
         }
         if col.class_count(&format!("kind:{k}")) == 0 && !col.stopped() {
